@@ -617,7 +617,7 @@ func init() {
 	register(&Scenario{
 		Prop:  "C09",
 		Level: "exploration",
-		Rule:  "refinement against the sequential decision-table model, operation by operation (sequential; three quarters of the runs fault-free, one quarter with fail-stop storage faults where the faulted operations themselves are not judged but every later one is, against the last committed state). thorough: every case of the cube {nothing stored, stored size 0..17} x submitted 0..17 x old 0..17 x {same root, different root} x {empty, correct, correct-for-other-sizes, flipped, dropped, added, random proof} on a fresh witness, then seeded histories with sizes to 2^63 and old sizes to 2^64-1; quick: a seeded sample of the cube interleaved with seeded histories; non-trivial = the model constrains the verdict (not one of the three open cells); distinct = distinct (state class, verdict, proof kind, old relation) cells reached",
+		Rule:  "refinement against the sequential decision-table model, operation by operation (sequential; three quarters of the runs fault-free, one quarter with fail-stop storage faults where the faulted operations themselves are not judged but every later one is, against the last committed state). thorough: every case of the cube {nothing stored, stored size 0..17} x submitted 0..17 x old 0..17 x {same root, different root} x {empty, correct, correct-for-other-sizes, flipped, dropped, added, random proof} on a fresh witness, then seeded histories with sizes to 2^63 and old sizes to 2^64-1; quick: a seeded sample of the cube interleaved with seeded histories; a tenth of the histories arrive through the real add-checkpoint endpoint (handler, adapter, witness) and are judged by the status the verdict is mapped to, as the callers that switch on the verdict see it; non-trivial = the model constrains the verdict (not one of the three open cells); distinct = distinct (state class, verdict, proof kind, old relation) cells reached",
 		Total: c09Total,
 		Gen: func(r *Rng, tier string, n uint64) *Plan {
 			if tier == "thorough" && n < cubeTotal {
@@ -625,6 +625,14 @@ func init() {
 			}
 			if tier != "thorough" && n%2 == 0 {
 				return cubePlan(r.U64n(cubeTotal), r.Uint64())
+			}
+			if n%10 == 5 {
+				// the verdict as the caller that branches on it sees it: the same kind of history through the add-checkpoint
+				// endpoint (handler, adapter, witness; no rate limit, no faults), judged by the status the verdict is mapped to
+				q := scenarios["C10"].Gen(r, tier, 0)
+				q.Scenario, q.Faults, q.Cfg.Seam = "endpoint-verdicts", nil, "none"
+				q.Cfg.Extra["rate"] = 1000000000
+				return q
 			}
 			pf := Profile{MaxLogs: 2, ShareKeys: true, MinOps: 2, MaxOps: 10, Adversarial: 0.75, Mutations: 0.15, BigSizes: true}
 			p := &Plan{Scenario: "W"}
@@ -665,6 +673,9 @@ func init() {
 			return p
 		},
 		Run: func(t *testing.T, p *Plan) *Outcome {
+			if p.Scenario == "endpoint-verdicts" {
+				return c09ViaBastion(t, p)
+			}
 			res, out := baseOutcome(t, p, false)
 			if len(out.Infra) > 0 {
 				return out
